@@ -6,6 +6,9 @@
 (* <<"BADLINE", l, reasons>> for a rejected one.                           *)
 (*   enc    bytes emitted by the library  # Wire!Enc(message)       (C02)  *)
 (*   hlen   Header.MessageLength after assembly # serialised size   (C02)  *)
+(*   wenc   bytes written by WriteTo (pooled buffer) # Wire!Enc      (C02)  *)
+(*   lenbook MessageLength / order after an assembly operation      (C02)  *)
+(*   wser   WriteTo and Serialize disagree on the bytes of a message (C01)  *)
 (*   build  the API refused / panicked on a well-formed message     (C01)  *)
 (*   read   the library could not read its own / the reference bytes(C01)  *)
 (*   dhdr   header read back differs                                (C01)  *)
@@ -13,6 +16,7 @@
 (*   reser  serialising the message read does not reproduce the bytes(C01) *)
 (***************************************************************************)
 EXTENDS Wire, VDict, Json, TLC
+LB == INSTANCE LenBook WITH MaxOps <- 0, Lens <- {}, order <- <<>>, hlen <- 0, hist <- <<>>
 
 Trace == ndJsonDeserialize("trace.ndjson")
 
@@ -24,11 +28,21 @@ WFMsg(m) == \A i \in 1..Len(m.avps) : WFAVP(m.avps[i])
 Reasons(e) ==
   IF e.ev = "vdict" THEN
      IF {e.entries[i] : i \in 1..Len(e.entries)} = VDictTable THEN <<>> ELSE <<"vdict">>
+  ELSE IF e.ev = "lenbook" THEN
+     LET st == LB!StartOrder(e.start)
+         want == LB!Replay(st, 20 + LB!SumSizes(st), e.ops, 1)
+     IN IF /\ Len(e.after) = Len(want)
+           /\ \A k \in 1..Len(want) :
+                 /\ e.after[k].hlen = want[k].hlen /\ e.after[k].slen = want[k].hlen
+                 /\ e.after[k].order = [j \in 1..Len(want[k].order) |-> want[k].order[j].id]
+        THEN <<>> ELSE <<"lenbook">>
   ELSE IF ~WFMsg(e.m) THEN <<"generator-not-wf">>
   ELSE IF ~e.built THEN <<"build">>
   ELSE LET ref == Enc(e.m) IN
        (IF e.bytes # ref THEN <<"enc">> ELSE <<>>)
     \o (IF e.ev = "msg" /\ e.hlen # Len(e.bytes) THEN <<"hlen">> ELSE <<>>)
+    \o (IF e.ev = "msg" /\ e.wbytes # ref THEN <<"wenc">> ELSE <<>>)
+    \o (IF e.ev = "msg" /\ e.wbytes # e.bytes THEN <<"wser">> ELSE <<>>)
     \o (IF ~e.rok THEN <<"read">>
         ELSE (IF e.dhdr # e.m.hdr \/ e.dlen # Len(e.bytes) THEN <<"dhdr">> ELSE <<>>)
           \o (IF e.davps # e.m.avps THEN <<"davps">> ELSE <<>>)
